@@ -97,6 +97,8 @@ def run_case(case):
                             alts.append(('%s full_output=%s row 1 reversed' % (nm, fo), np.asarray(r2)[1][::-1].tolist()))
     except Exception as ex:
         alts.append(('raised %s: %s' % (type(ex).__name__, str(ex)[:120]), None))
+    if np.asarray(info.error_estimate).dtype.kind != 'f':
+        alts.append(('the error estimate has dtype %s: not a floating-point estimate' % np.asarray(info.error_estimate).dtype, None))
     val = np.atleast_1d(val)
     est = np.atleast_1d(info.error_estimate)
     want, kinds = [], []
